@@ -6,7 +6,7 @@ the real `re` in the preflight)."""
 import re
 
 ID = "C17"
-PATTERNS = ["[KR]", "[KR](?!P)", "\\w(?=D)"]
+PATTERNS = ["[KR]", "[KR](?!P)", "\\w(?=D)", "(?=D)"]
 MAXMC = 3
 
 
@@ -20,7 +20,7 @@ def setup():
 
 def preflight(tier):
     from symx import rx
-    return rx.selftest(PATTERNS + ["[KR](?=P)", "(?<=K)D", "[^P]"], maxlen=4)
+    return rx.selftest(PATTERNS + ["[KR](?=P)", "(?<=K)D", "[^P]", "(?<=K)", "(?<=[KR])(?!P)"], maxlen=4)
 
 
 class _PepSet:
@@ -72,7 +72,7 @@ def sym(ctx, cfg):
     R = rx.Rx(pat)
     site = {0: z3.BoolVal(True), L: z3.BoolVal(True)}
     for k in range(1, L):
-        site[k] = core.zbool(R.cond(s, k - 1))
+        site[k] = core.zbool(R.site_cond(s, k))
     if L >= 1:
         # a match on the last residue adds a duplicate site L: no new peptide
         pass
@@ -124,7 +124,7 @@ def harnesses(tier):
                               stubs=["re -> symx.rx (single-residue class with optional look-around; compared with the real re in preflight)",
                                      "str -> tokenised residue string (symx.items.TStr)"],
                               assumptions=["residues are upper-case letters A-Z", "min_length >= 1",
-                                           "enzyme pattern consumes exactly one residue (no zero-width matches)",
+                                           "enzyme pattern is one residue class with optional look-around, or a zero-width look-around (Asp-N style)",
                                            "sequence length <= %d" % L]))
     return hs
 
